@@ -471,7 +471,7 @@ class Interp:
         return val
 
     def index_value(self, val, iv):
-        if isinstance(val, Agg) and val.kind in ("array", "slice", "vec", "hashmap", "btreemap", "hashset"):
+        if isinstance(val, Agg) and val.kind in ("array", "slice", "vec", "hashmap", "btreemap", "hashset", "btreeset"):
             if isinstance(iv, int):
                 return val.fields[iv]
             sv = z3.simplify(iv) if z3.is_expr(iv) else iv
